@@ -3,7 +3,9 @@
 package matchgen
 
 import (
+	"fmt"
 	"math/rand"
+	"strings"
 
 	"k8s.io/apiserver/pkg/authentication/user"
 	"k8s.io/apiserver/pkg/authorization/authorizer"
@@ -19,12 +21,43 @@ var Names = []string{"", "a", "b", "ab", "pods", "deployments", "status", "sys",
 // entry universe for rule lists
 var Entries = []string{"", "a", "b", "ab", "a*", "*", "-", "-a", "-b", "-ab", "-a*", "-*", "--a", "*/s", "*/t", "-*/s",
 	"a/s", "-a/s", "a/t", "/x", "/x/*", "-/x", "/x*", "pods", "-pods", "-deployments", "pods/status", "*/status",
-	"-*/status", "sys*", "-sys*", "g", "-g", "-h", "system:serviceaccount:n:a", "-system:serviceaccount:n:a", "**", "a**", "*a"}
+	"-*/status", "sys*", "-sys*", "g", "-g", "-h", "system:serviceaccount:n:a", "-system:serviceaccount:n:a", "**", "a**", "*a",
+	"a b", "-a b", "get", "-get", "list", "Pods", "A", "-A", "G"}
+
+// Domains are value sets that somebody may regard as "complete" (every API verb, every resource of the universe …): a list
+// that spells a whole domain out is still a positive list, it does not select values outside the domain.
+var Domains = [][]string{
+	{"get", "list", "watch", "create", "update", "patch", "delete", "deletecollection"},
+	{"pods", "deployments", "status", "a", "b", "ab"},
+	{"g", "h", "sys", "sysadm"},
+	{"", "apps", "a", "b"},
+}
 
 var Requests = []string{"", "a", "b", "ab", "abc", "*", "-", "-a", "a*", "s", "t", "a/s", "pods", "deployments",
 	"pods/status", "status", "sys", "sysadm", "g", "h", "/x", "/x/", "/x/y", "/xy", "/", "system:serviceaccount:n:a",
 	"system:serviceaccount:n:", "*/s", "-pods", "system:serviceaccount:nx:a", "system:serviceaccount:n:xa", "system:serviceaccount:n-canary:a",
-	"system:serviceaccount:xn:a", "system:serviceaccount:n:a:b", "system:serviceaccount:n::a", "system:serviceaccount::a", "system:serviceaccount:kube-system:default"}
+	"system:serviceaccount:xn:a", "system:serviceaccount:n:a:b", "system:serviceaccount:n::a", "system:serviceaccount::a", "system:serviceaccount:kube-system:default",
+	"get", "list", "watch", "create", "post", "put", "head", "options", "proxy", "connect", "a b", "Pods", "PODS", "A", "G", "apps"}
+
+// NearDup returns a string a careless comparison would take for e: another letter case, or white space at an end.
+func NearDup(r *rand.Rand, e string) string {
+	neg := ""
+	if len(e) > 1 && e[0] == '-' {
+		neg, e = "-", e[1:]
+	}
+	switch r.Intn(4) {
+	case 0:
+		return neg + strings.ToUpper(e)
+	case 1:
+		return neg + strings.ToUpper(e[:len(e)/2]) + e[len(e)/2:]
+	case 2:
+		return neg + e + " "
+	}
+	if len(e) > 0 {
+		return neg + strings.ToUpper(e[:1]) + e[1:]
+	}
+	return neg + e
+}
 
 func randBytes(r *rand.Rand) string {
 	n := r.Intn(6)
@@ -63,16 +96,118 @@ func List(r *rand.Rand, raw bool) []string {
 		return []string{}
 	}
 	n := 1 + r.Intn(4)
-	l := make([]string, 0, n)
 	allInv := r.Intn(3) == 0
-	for i := 0; i < n; i++ {
-		e := Entry(r, raw)
+	inv := func(e string) string {
 		if allInv && (len(e) == 0 || e[0] != '-') && e != "*" {
 			e = "-" + e
 		}
-		l = append(l, e)
+		return e
+	}
+	var l []string
+	switch r.Intn(24) {
+	case 0: // a whole domain spelt out (in any order, possibly with more entries): still a positive / an inverted list
+		d := Domains[r.Intn(len(Domains))]
+		for _, k := range r.Perm(len(d)) {
+			l = append(l, inv(d[k]))
+		}
+		n = r.Intn(2)
+	case 1: // a long list (thresholds of "fast paths" are products of list length and number of request values)
+		for i, k := 0, 20+r.Intn(100); i < k; i++ {
+			l = append(l, inv(fmt.Sprintf("g%d", r.Intn(150))))
+		}
+	}
+	for i := 0; i < n; i++ {
+		l = append(l, inv(Entry(r, raw)))
+	}
+	if len(l) > 0 && r.Intn(6) == 0 { // a near-duplicate of an entry: another case, white space, or the entry again
+		e := l[r.Intn(len(l))]
+		d := e
+		if r.Intn(3) > 0 && e != "*" && e != "" {
+			d = NearDup(r, e)
+		}
+		k := r.Intn(len(l) + 1)
+		l = append(l[:k], append([]string{d}, l[k:]...)...)
 	}
 	return l
+}
+
+// EditList returns a minimally different list: what an administrator's edit, or a sloppy comparison of two versions, is
+// about — [] vs [""], one entry "a b" vs two entries "a","b", entries swapped, an entry doubled, dropped or re-cased.
+func EditList(r *rand.Rand, l []string, raw bool) []string {
+	out := append([]string{}, l...)
+	switch r.Intn(9) {
+	case 0:
+		if len(out) == 0 {
+			return []string{""}
+		}
+		if len(out) == 1 && out[0] == "" {
+			return []string{}
+		}
+		return append(out, "")
+	case 1: // split an entry at a space / join two entries with a space
+		for i, e := range out {
+			if k := strings.IndexByte(e, ' '); k >= 0 {
+				return append(out[:i], append([]string{e[:k], e[k+1:]}, out[i+1:]...)...)
+			}
+		}
+		if len(out) >= 2 {
+			i := r.Intn(len(out) - 1)
+			return append(out[:i], append([]string{out[i] + " " + out[i+1]}, out[i+2:]...)...)
+		}
+	case 2:
+		if len(out) >= 2 {
+			i, j := r.Intn(len(out)), r.Intn(len(out))
+			out[i], out[j] = out[j], out[i]
+			return out
+		}
+	case 3:
+		if len(out) > 0 {
+			i := r.Intn(len(out))
+			return append(out[:i], out[i+1:]...)
+		}
+	case 4:
+		if len(out) > 0 {
+			i := r.Intn(len(out))
+			out[i] = NearDup(r, out[i])
+			return out
+		}
+	case 5:
+		if len(out) > 0 {
+			return append(out, out[r.Intn(len(out))])
+		}
+	case 6:
+		if len(out) > 0 { // flip the polarity of one entry
+			i := r.Intn(len(out))
+			if len(out[i]) > 0 && out[i][0] == '-' {
+				out[i] = out[i][1:]
+			} else {
+				out[i] = "-" + out[i]
+			}
+			return out
+		}
+	}
+	return append(out, Entry(r, raw))
+}
+
+// EditRule edits one list of the rule (see EditList).
+func EditRule(r *rand.Rand, rule proxyv1alpha1.DispatchPolicyRule, raw bool) proxyv1alpha1.DispatchPolicyRule {
+	switch r.Intn(7) {
+	case 0:
+		rule.Verbs = EditList(r, rule.Verbs, raw)
+	case 1:
+		rule.APIGroups = EditList(r, rule.APIGroups, raw)
+	case 2:
+		rule.Resources = EditList(r, rule.Resources, raw)
+	case 3:
+		rule.ResourceNames = EditList(r, rule.ResourceNames, raw)
+	case 4:
+		rule.Users = EditList(r, rule.Users, raw)
+	case 5:
+		rule.UserGroups = EditList(r, rule.UserGroups, raw)
+	case 6:
+		rule.NonResourceURLs = EditList(r, rule.NonResourceURLs, raw)
+	}
+	return rule
 }
 
 func ListClass(l []string) string {
@@ -151,6 +286,11 @@ func GenAttrs(r *rand.Rand, raw bool) Attrs {
 	}
 	for i, n := 0, r.Intn(3); i < n; i++ {
 		a.Groups = append(a.Groups, Request(r, raw))
+	}
+	if r.Intn(20) == 0 { // a user with many groups
+		for i, n := 0, 30+r.Intn(40); i < n; i++ {
+			a.Groups = append(a.Groups, fmt.Sprintf("g%d", r.Intn(150)))
+		}
 	}
 	return a
 }
